@@ -72,3 +72,49 @@ func init() {
 		k(st, []Value{x.freshErr(st, "respwriteerr")})
 	}
 }
+
+// json.NewDecoder(r).Decode(&v): the decoder remembers what it reads from (ghost jsonsrc); a
+// successful Decode fills every string field of the target with a function of the text read
+// and the field's name: jsonfield(readall(r), "<Field>") - what the client sent, nothing else.
+func init() {
+	models["encoding/json.NewDecoder"] = func(x *Exec, fr *Frame, st *State, pc *preparedCall, k func(*State, []Value)) {
+		sig := pc.fn.Type().(*types.Signature)
+		p := x.zeroValue(x.resolveType(sig.Results().At(0).Type())).(PtrV)
+		p.Addr = x.allocAddr(st, "jsondecoder")
+		x.ghostSet(st, "jsonsrc", p.Addr, x.identityOf(st, pc.args[0]))
+		k(st, []Value{p})
+	}
+	models["encoding/json.Decoder.Decode"] = func(x *Exec, fr *Frame, st *State, pc *preparedCall, k func(*State, []Value)) {
+		var dst PtrV
+		switch a := pc.args[0].(type) {
+		case PtrV:
+			dst = a
+		case OpaqueV:
+			if p, ok := a.Dyn.(PtrV); ok {
+				dst = p
+			} else {
+				panic(x.unsupported("json.Decoder.Decode into something other than a pointer"))
+			}
+		default:
+			panic(x.unsupported("json.Decoder.Decode into something other than a pointer"))
+		}
+		fresh := x.freshValue(st, x.resolveType(dst.Elem), "decoded")
+		if d, ok := pc.recv.(PtrV); ok {
+			text := x.ghostSel(st, "readall", x.ghostSel(st, "jsonsrc", d.Addr))
+			if sv, ok := fresh.(StructV); ok {
+				for _, n := range sv.Names {
+					if f, ok := sv.F[n].(StrV); ok {
+						st.assumeRaw(Eq(x.strID(st, f), App("jsonfield", SInt, text, x.strID(st, x.strLit(n)))))
+					}
+				}
+			}
+		}
+		if dst.LV != nil {
+			dst.LV.Store(x, st, fresh)
+		} else {
+			x.heapStore(st, dst, fresh)
+		}
+		x.Trusted["encoding/json.Decoder.Decode: string fields of the target are functions of the text read and the field name (jsonfield)"] = true
+		k(st, []Value{x.freshErr(st, "jsonerr")})
+	}
+}
